@@ -62,6 +62,7 @@ type Case struct {
 	Law   string `json:"law,omitempty"`
 	Typed bool   `json:"typed,omitempty"` // C03: every operand is statically typed
 	Alt   bool   `json:"alt,omitempty"`   // C17: compile against the alternative environment (Add takes float64)
+	Table bool   `json:"table,omitempty"` // C17: the operator is mapped to two candidates (Add, AddAny)
 }
 
 // Failure is one real execution that contradicts the specification.
@@ -185,7 +186,11 @@ func (r *replayer) evalCase(c Case) {
 		if c.Alt != (m.Env == "altmap") {
 			continue
 		}
-		prog, cg := CompileMode(c.Src, m, r.extra...)
+		extra := r.extra
+		if c.Table {
+			extra = []expr.Option{expr.Operator("+", "Add", "AddAny")}
+		}
+		prog, cg := CompileMode(c.Src, m, extra...)
 		if cg != nil {
 			if cg.Panic != "" || cg.Hang {
 				r.fail(Failure{Why: "compile-panic", Src: c.Src, Mode: m.String(), Got: cg, Tags: c.Tags})
@@ -501,9 +506,10 @@ func (r *replayer) dispatch(line []byte) error {
 // badOperatorMappings: a mapping that names a missing or ill-shaped function
 // must be rejected by Compile (C17, last sentence).
 func (r *replayer) badOperatorMappings() {
-	for _, fn := range []string{"Nope", "IsPos", "I", "Cat3"} {
+	for _, fns := range [][]string{{"Nope"}, {"IsPos"}, {"I"}, {"Cat3"}, {"Nope", "Add"}, {"IsPos", "Add"}, {"Add", "I"}, {"I", "AddAny", "Add"}} {
 		m := Mode{Env: "struct", Optimize: true}
-		_, cg := CompileMode("1 + 2", m, expr.Operator("+", fn))
+		_, cg := CompileMode("1 + 2", m, expr.Operator("+", fns...))
+		fn := strings.Join(fns, ",")
 		r.sum.Executions++
 		r.sum.Stats["bad-mappings-tried"]++
 		if cg == nil {
